@@ -168,7 +168,7 @@ func buildInput(ic *inCase, seeds []seedFile) (bin []byte, ops []string, wgenFS 
 		r := core.NewRng(int64(ic.S), 31)
 		b, op := RawInput(r)
 		return b, []string{op}, -1
-	case "wgen", "wmut", "iwmut":
+	case "wgen", "wmut", "iwmut", "xwmut":
 		r := core.NewRng(int64(ic.S), 7)
 		cfg := wgen.DefaultConfig(r)
 		if cfg.Funcs > 5 {
@@ -184,6 +184,14 @@ func buildInput(ic *inCase, seeds []seedFile) (bin []byte, ops []string, wgenFS 
 			}
 			return p.Bin, nil, wgenFS
 		}
+		if ic.K == "xwmut" {
+			mr := core.NewRng(int64(ic.S), 37)
+			b, rec, ok := IdxMutate(mr, p.Bin)
+			if !ok {
+				return p.Bin, []string{"idx-none"}, -1
+			}
+			return b, []string{rec}, -1
+		}
 		if ic.K == "iwmut" {
 			mr := core.NewRng(int64(ic.S), 35)
 			b, rec, _, ok := ImmMutate(mr, p.Bin, ic.W)
@@ -195,6 +203,21 @@ func buildInput(ic *inCase, seeds []seedFile) (bin []byte, ops []string, wgenFS 
 		mr := core.NewRng(int64(ic.S), 33)
 		b, ops := Mutate(mr, p.Bin, func() []byte { return seeds[mr.Intn(len(seeds))].Bin })
 		return b, ops, -1
+	case "xtpl":
+		return IdxTemplate(core.NewRng(int64(ic.S), 37)), nil, -1
+	case "xmut", "xcmut":
+		mr := core.NewRng(int64(ic.S), 37)
+		var base []byte
+		if ic.K == "xmut" {
+			base = IdxTemplate(mr)
+		} else {
+			base = seeds[ic.I].Bin
+		}
+		b, rec, ok := IdxMutate(mr, base)
+		if !ok {
+			return base, []string{"idx-none"}, -1
+		}
+		return b, []string{rec}, -1
 	case "imut":
 		mr := core.NewRng(int64(ic.S), 35)
 		b, rec, _, ok := ImmMutate(mr, seeds[ic.I].Bin, ic.W)
@@ -530,6 +553,22 @@ func toLimits(l Lim) wenc.Limits {
 	return wenc.Limits{Min: l.Min, Max: l.Max, HasMax: l.HasMax, Shared: l.Shared}
 }
 
+// stubGlobalInit: imported globals get distinctive non-zero values (a raw global value that
+// is mistaken for a reference or an index must not look like null / zero).
+func stubGlobalInit(t byte) []byte {
+	switch t {
+	case wenc.I32:
+		return wenc.ConstI32(0x12345)
+	case wenc.I64:
+		return wenc.ConstI64(0x123456789a)
+	case wenc.F32:
+		return wenc.ConstF32(0x3fc00000)
+	case wenc.F64:
+		return wenc.ConstF64(0x4004000000000000)
+	}
+	return wenc.ZeroConst(t)
+}
+
 // stubModules builds, per import module name, a wasm module that exports
 // something of the right kind and type under every imported name.
 func stubModules(w *Walked) (names []string, bins map[string][]byte) {
@@ -569,7 +608,7 @@ func stubModules(w *Walked) (names []string, bins map[string][]byte) {
 				m.Exports = append(m.Exports, wenc.Export{Name: im.Name, Kind: wenc.ExtMemory, Idx: 0})
 			}
 		case 3:
-			m.Globals = append(m.Globals, wenc.Global{Type: wenc.GlobalType{Type: im.GlobalType, Mutable: im.Mutable}, Init: wenc.ZeroConst(im.GlobalType)})
+			m.Globals = append(m.Globals, wenc.Global{Type: wenc.GlobalType{Type: im.GlobalType, Mutable: im.Mutable}, Init: stubGlobalInit(im.GlobalType)})
 			m.Exports = append(m.Exports, wenc.Export{Name: im.Name, Kind: wenc.ExtGlobal, Idx: uint32(len(m.Globals) - 1)})
 		}
 		seen[key] = true
@@ -969,7 +1008,7 @@ func child(mode string, in json.RawMessage) any {
 	// 2. compiler engine where the (shared) decoder and validator accepted: always under the
 	// smallest and the largest accepting feature set; under every accepting one for
 	// unmutated inputs and for a quarter of the mutants
-	fullCompiler := ic.K == "seed" || ic.K == "wgen" || ic.K == "lim" || out.Hash%4 == 0
+	fullCompiler := ic.K == "seed" || ic.K == "wgen" || ic.K == "lim" || ic.K == "xtpl" || out.Hash%4 == 0
 	for fs := 0; fs < 5 && !stop; fs++ {
 		if imm || (out.Acc[fs*2] == 1 && (fullCompiler || fs == first || fs == last)) {
 			compileCombo(fs*2 + 1)
